@@ -1,6 +1,6 @@
 CONSTANTS
-  Family = "tmo"
-  Defects = {"TryNotDisabled"}
+  Family = "path"
+  Defects = {"RewriteSkippedWhenMarked"}
   Big = FALSE
 SPECIFICATION Spec
 INVARIANTS HdrImplIsSem HdrLevelOrder OmittedAppends HdrVarResolved PathImplIsSem PrefixWins PathRuleSwapsWholePath HostImplIsSem RedirImplIsSem HopImplIsSem HopBothRewrite PfcImplIsSem TmoImplIsSem TryBelowGlobal
